@@ -526,8 +526,8 @@ func (e *Engine) constGlobalVal(c *FnCtx, st *State, key string) Val {
 			c.sc.Decl("cgf:"+n, "(assert "+f+")")
 		}
 		c.assumed["init-only global "+g.Pkg.Pkg.Name()+"."+g.Name()+" is a constant (checked: single store in init, address never taken)"] = true
-		if isRefType(t) {
-			c.sc.Decl("cgal:"+n, "(assert (< "+n+" |alloc0|))")
+		if rb := c.refBound(t, n, &State{alloc: "|alloc0|"}); rb != "true" {
+			c.sc.Decl("cgal:"+n, "(assert "+rb+")")
 		}
 		return Val{T: t, E: n}
 	}
